@@ -221,6 +221,11 @@ int main(int argc, char** argv) {
             R.stat("bodies", bodies);
             for (auto& o : obs) { R.stat("observer_entries", o->entries.load()); R.stat("observer_exits", o->exits.load()); }
             if (par) { R.nontrivial++; R.signature(h); }
+            if (par && R.want_sample()) {
+                Json j; j.obj(); j.kv("arenas(max_concurrency,reserved)", shp); j.kv("application_threads", nt); j.kv("ops_per_thread", ops);
+                j.key("per_arena[max_in_flight,max_index,bodies,reserved_slot_entries]").arr(); for (auto& m : am) { j.arr(); j.val(m->max_inflight.load()); j.val(m->max_index.load()); j.val((long long)m->bodies.load()); j.val((long long)m->reserved_entries.load()); j.end_arr(); } j.end_arr();
+                j.end_obj(); R.sample(j.s);
+            }
             obs.clear(); am.clear();
         } else {
             // ---- steady regime under max_allowed_parallelism = L: at most L-1 workers inside bodies at once
